@@ -1,9 +1,13 @@
 #!/bin/bash
 # tools/try_seed.sh <patch.diff> <Cxx> [more check args]: apply a seeded change to /repo, run the check, restore /repo. (self-test helper)
+# The evidence directory is saved and restored, so evidence files never record a run against a modified tree.
 set -u
 patch="$1"; shift
-git -C /repo apply "$patch" || { echo "patch does not apply"; exit 3; }
+bk=$(mktemp -d /tmp/evbk.XXXXXX); cp -a /verif/evidence/. "$bk"/
+git -C /repo apply "$patch" || { echo "patch does not apply"; rm -rf "$bk"; exit 3; }
 /verif/check "$@" | grep -v "^$" | tail -8
 rc=${PIPESTATUS[0]}
 git -C /repo checkout -- .
+mkdir -p /verif/.cache/seed_replays; cp -a /verif/evidence/replay/. /verif/.cache/seed_replays/ 2>/dev/null
+rm -rf /verif/evidence; mkdir -p /verif/evidence; cp -a "$bk"/. /verif/evidence/; rm -rf "$bk"
 echo "rc=$rc"
